@@ -152,6 +152,8 @@ class AggSystem(evx.System):
     for metric in self.inputs:
       for ts_kind in self.p.get('kinds', ('now', 'prev', 'late3', 'old')):
         evs.append(('dp', metric, ts_kind))
+      for vk in self.p.get('values', ()):
+        evs.append(('dp', metric, self.p.get('kinds', ('now',))[0], vk))
     evs.append(('tick', 5))
     evs.append(('tick', 10))
     if len(self.rulesets) > 1:
@@ -165,11 +167,14 @@ class AggSystem(evx.System):
   def apply(self, ev):
     self.n += 1
     if ev[0] == 'dp':
-      _, metric, kind = ev
+      _, metric, kind = ev[:3]
       now = self.clock.seconds()
       ts = {'now': now, 'prev': now - F, 'late3': now - 3 * F, 'old': now - (self.m + 3) * F,
             'fracprev': now - F + 0.5, 'fraclate': now - 2 * F + 9.75}[kind]
       value = 2 ** self.n
+      if len(ev) > 3:
+        # extreme but legal values (the line listener accepts them; only NaN is filtered before the pipeline)
+        value = {'inf': float('inf'), '-inf': float('-inf'), 'big': 1.5e308, '-big': -1.5e308}[ev[3]]
       interval = int(ts) - int(ts) % F if isinstance(ts, int) else ts - (ts % F)
       aggs = set()
       for out, inp, method in self.rules:
@@ -232,7 +237,9 @@ class AggSystem(evx.System):
       method = [m for o, i, m in self.rules if self._rule_feeds(o, i, agg)][0]
       f = ref_func(method)
       mark = self.reload_mark.get(key, 0)     # values received before a rules reload may have been dropped with the buffers
-      js = [j for j in range(0, max(L, mark) + 1) if j < len(vals) and f(vals[j:]) == value]
+      def same(a, b):
+        return a == b or (a != a and b != b)
+      js = [j for j in range(0, max(L, mark) + 1) if j < len(vals) and same(f(vals[j:]), value)]
       if not js:
         return ('wrong-aggregate:' + method, '%r interval %r emitted %r; values received %r (first %d already emitted): no suffix '
                 'starting at or before the last emission gives that %s' % (agg, interval, value, vals, L, method))
@@ -272,8 +279,13 @@ class AggSystem(evx.System):
     BM = self.buffers.BufferManager
     bufs = []
     for agg, buf in sorted(BM.buffers.items()):
+      def cls(b):
+        # ordinary values are interchangeable (distinct powers of two); the extreme ones are not
+        if not self.p.get('values'):
+          return None
+        return tuple(sorted(repr(v) for v in b.values if v in (float('inf'), float('-inf')) or abs(v) > 1e300))
       ib = tuple(sorted((i - cur, len(b.values), b.inactive_since is None,
-                         None if b.inactive_since is None else b.inactive_since - cur) for i, b in buf.interval_buffers.items()))
+                         None if b.inactive_since is None else b.inactive_since - cur, cls(b)) for i, b in buf.interval_buffers.items()))
       bufs.append((agg, buf.configured, ib))
     timers = tuple(sorted(round(dc.getTime() - now, 6) for dc in self.clock.getDelayedCalls()))
     ref = tuple(sorted((k[0], k[1] - cur, len(v), self.upto.get(k, 0), self.horizon_ok.get(k, True), self.reload_mark.get(k, 0))
@@ -329,6 +341,9 @@ def stream_configs(ctx):
   cfgs.append({'rules': [('x.a', 'x.a', 'sum')], 'm': 1, 'forward_all': False, 'wbf': 5})
   # a sum/count pair over the same inputs, with the per-rule name memo switched on
   cfgs.append(dict({'rules': [('agg.sum', 'x.*', 'sum'), ('agg.cnt', 'x.*', 'count')], 'm': 1, 'forward_all': True, 'name_cache': (100, 0)}, **two))
+  # infinities and values whose sum overflows (what python's sum() makes of them - inf, -inf or nan - is the aggregate)
+  for method in ('avg', 'sum') if not ctx.thorough else ('avg', 'sum', 'min', 'max', 'p50'):
+    cfgs.append({'rules': [('agg.<p>', '<p>.*', method)], 'm': 1, 'inputs': ('x.a',), 'kinds': ('now',), 'values': ('inf', '-inf', 'big')})
   # sub-second timestamps (the interval is the whole-second floor aligned to the frequency)
   cfgs.append({'rules': [('agg.<p>', '<p>.*', 'sum')], 'm': 2, 'start': 1003, 'inputs': ('x.a',), 'kinds': ('now', 'fracprev', 'fraclate')})
   # a received series that is merely NAMED like an aggregate some other series feeds (it matches no rule itself):
